@@ -37,6 +37,7 @@ type CCase struct {
 	Procs    int        `json:"procs"`    // GOMAXPROCS
 	Rounds   int        `json:"rounds"`   // free-running repetitions
 	Cold     bool       `json:"cold"`     // run concurrently first (nothing of the library has run in this process yet), solo afterwards
+	Hammer   int        `json:"hammer"`   // > 0: every instance repeats its (tiny) stream this many times, constructing or resetting its Reader/Writer each time
 	Tag      string     `json:"tag"`
 }
 
@@ -273,6 +274,9 @@ func runInstance(spec *InstSpec, prepared [][]byte, g *gate, idx int) (digest st
 			}
 			for j := 0; ; j++ {
 				sz := reads[j%len(reads)]
+				if sz < 1 {
+					sz = 4096 // (the read schedules' "drain with io.Copy" marker has no meaning here)
+				}
 				n, e := u.r.Read(buf[:sz])
 				h.Write(buf[:n])
 				if e != nil {
@@ -290,6 +294,10 @@ func execConcCase(c *CCase, arch int, emit func(interface{})) {
 	if c.Procs > 0 {
 		old := runtime.GOMAXPROCS(c.Procs)
 		defer runtime.GOMAXPROCS(old)
+	}
+	if c.Hammer > 0 {
+		execHammer(c, emit)
+		return
 	}
 	emit(CEvent{Ev: "Begin", Case: c.ID, N: len(c.Insts), Steps: len(c.Schedule), Procs: c.Procs})
 	// prepare reader inputs with the standard library's encoders (independent of the code under test)
@@ -408,3 +416,125 @@ func randomInstance(rng *rand.Rand, small bool) InstSpec {
 
 var _ = time.Second
 var _ = fmt.Sprint
+
+// execHammer: the life of pooled objects under load.  Every instance handles the same tiny stream
+// c.Hammer times, alternately with a newly constructed and a reset Reader/Writer, and compares
+// each result with the one it got alone; all instances run at once.  What goes wrong only when
+// two constructions or Resets overlap in time (a shared cache, a pool) shows as a result that
+// differs, long before a data race is ever reported.
+func execHammer(c *CCase, emit func(interface{})) {
+	emit(CEvent{Ev: "Begin", Case: c.ID, N: len(c.Insts), Steps: 0, Procs: c.Procs})
+	type job struct {
+		spec     *InstSpec
+		stream   []byte // reader: what it reads
+		data     []byte
+		dict     []byte
+		want     []byte // writer: what a lone Writer emits
+		bad, err int
+		pan      string
+	}
+	jobs := make([]*job, len(c.Insts))
+	for i := range c.Insts {
+		sp := &c.Insts[i]
+		j := &job{spec: sp, data: sp.Data.Bytes()}
+		if sp.Set.Dict != nil {
+			j.dict = sp.Set.Dict.Bytes()
+		}
+		if sp.Role == "reader" {
+			b, err := encode(EncSpec{Impl: "std", Kind: sp.Set.Kind, Level: sp.Set.Level, Window: 32768, Data: sp.Data, Dict: sp.Set.Dict})
+			if err != nil {
+				emit(CEvent{Ev: "Crash", Case: c.ID, Panic: "harness: " + err.Error()})
+				return
+			}
+			j.stream = b
+		} else {
+			var buf bytes.Buffer
+			set := sp.Set
+			set.Impl = "fastgo"
+			u, err := newWriter(set, &buf, j.dict)
+			if err == nil {
+				u.w.Write(j.data)
+				err = u.w.Close()
+			}
+			if err != nil {
+				emit(CEvent{Ev: "Crash", Case: c.ID, Panic: "harness: " + err.Error()})
+				return
+			}
+			j.want = append([]byte{}, buf.Bytes()...)
+		}
+		jobs[i] = j
+	}
+	var wg sync.WaitGroup
+	start := make(chan struct{})
+	for _, j := range jobs {
+		wg.Add(1)
+		go func(j *job) {
+			defer wg.Done()
+			defer func() {
+				if x := recover(); x != nil {
+					j.pan = panicString(x)
+				}
+			}()
+			<-start
+			out := make([]byte, len(j.data)+64)
+			var ru readerUnderTest
+			var wu wUnderTest
+			var buf bytes.Buffer
+			set := j.spec.Set
+			set.Impl = "fastgo"
+			for k := 0; k < c.Hammer; k++ {
+				if j.spec.Role == "reader" {
+					var err error
+					src := bytes.NewReader(j.stream)
+					if k%2 == 0 || ru.reset == nil {
+						ru, err = newReader("fastgo", set.Kind, src, j.dict)
+					} else {
+						err = ru.reset(src, j.dict)
+					}
+					if err != nil {
+						j.err++
+						ru = readerUnderTest{}
+						continue
+					}
+					n, err := io.ReadFull(ru.r, out[:len(j.data)])
+					if err != nil && len(j.data) > 0 {
+						j.err++
+						continue
+					}
+					if m, e2 := ru.r.Read(out[n:]); m != 0 || e2 != io.EOF {
+						j.err++
+					}
+					if !bytes.Equal(out[:n], j.data) {
+						j.bad++
+					}
+				} else {
+					buf.Reset()
+					if k%2 == 0 || wu.w == nil {
+						var err error
+						if wu, err = newWriter(set, &buf, j.dict); err != nil {
+							j.err++
+							continue
+						}
+					} else {
+						wu.reset(&buf)
+					}
+					if _, err := wu.w.Write(j.data); err != nil {
+						j.err++
+					}
+					if err := wu.w.Close(); err != nil {
+						j.err++
+					}
+					if !bytes.Equal(buf.Bytes(), j.want) {
+						j.bad++
+					}
+				}
+			}
+		}(j)
+	}
+	close(start)
+	wg.Wait()
+	for i, j := range jobs {
+		emit(CEvent{Ev: "Inst", Case: c.ID, Idx: i, Role: j.spec.Role, Equal: j.bad == 0, ErrSame: j.err == 0, Panic: j.pan, Steps: c.Hammer})
+	}
+	emit(CEvent{Ev: "End", Case: c.ID})
+}
